@@ -614,6 +614,60 @@ def check_id_sequence(system, name):
     return out
 
 
+MIXED_DIMS = [[2, 3], [3, 2], [2, 3, 2], [2, 2, 3], [2], [3], [2, 2]]
+
+
+def check_identity_mixed(dims):
+    """gate `identity` on a composite system with the given (possibly UNEQUAL) elemental dimensions: every matrix form
+    has the size of the total dimension prod(dims) and all forms / dispatchers agree with the Gate object built on the
+    corresponding CompositeSystem"""
+    import qobj
+    fails = []
+    kinds = ["qubit" if d == 2 else "qutrit" for d in dims]
+    ids = list(range(len(dims)))
+    D = int(np.prod(dims))
+
+    def bad(check, form, msg):
+        fails.append({"check": check, "form": form, "msg": msg})
+    try:
+        c_sys = qobj.csys(kinds, names=tuple(ids))
+        if c_sys.dim != D:
+            bad("identity-mixed/csys-dim", "-", f"CompositeSystem of dims {dims} has dim {c_sys.dim}")
+        forms = {
+            "unitary_mat": (lambda: GT.generate_unitary_mat_from_gate_name("identity", list(dims), ids), np.eye(D)),
+            "gate_mat": (lambda: GT.generate_gate_mat_from_gate_name("identity", list(dims), ids), np.eye(D * D)),
+            "unitary_mat@dispatcher": (lambda: QT.generate_qoperation_object(mode="gate", name="identity", object_name="unitary_mat", dims=list(dims), ids=ids, c_sys=c_sys), np.eye(D)),
+            "gate_mat@dispatcher": (lambda: QT.generate_qoperation_object(mode="gate", name="identity", object_name="gate_mat", dims=list(dims), ids=ids, c_sys=c_sys), np.eye(D * D)),
+            "gate": (lambda: GT.generate_gate_from_gate_name("identity", c_sys, ids).hs, np.eye(D * D)),
+            "gate@dispatcher": (lambda: QT.generate_qoperation_object(mode="gate", name="identity", object_name="gate", dims=list(dims), ids=ids, c_sys=c_sys).hs, np.eye(D * D)),
+            "hamiltonian_vec": (lambda: LT.generate_hamiltonian_vec_from_gate_name("identity", list(dims), ids), np.zeros(D * D)),
+            "hamiltonian_mat": (lambda: LT.generate_hamiltonian_mat_from_gate_name("identity", list(dims), ids), np.zeros((D, D))),
+            "effective_lindbladian_mat": (lambda: LT.generate_effective_lindbladian_mat_from_gate_name("identity", list(dims), ids), np.zeros((D * D, D * D))),
+            "effective_lindbladian": (lambda: LT.generate_effective_lindbladian_from_gate_name("identity", c_sys, ids).hs, np.zeros((D * D, D * D))),
+            "effective_lindbladian_mat@dispatcher": (lambda: QT.generate_effective_lindbladian_object("identity", "effective_lindbladian_mat", dims=list(dims), ids=ids, c_sys=c_sys), np.zeros((D * D, D * D))),
+            "hamiltonian_mat@dispatcher": (lambda: QT.generate_effective_lindbladian_object("identity", "hamiltonian_mat", dims=list(dims), ids=ids, c_sys=c_sys), np.zeros((D, D))),
+        }
+        for form, (fn, ref) in forms.items():
+            if D > 6 and form.split("@")[0] in ("gate", "effective_lindbladian"):
+                continue        # (cost) the object forms only on the small systems; their size comes from c_sys.dim
+            try:
+                got = np.asarray(dense(fn()))
+            except Exception as e:  # noqa
+                bad("identity-mixed/raises", form, f"{type(e).__name__}: {e}")
+                continue
+            if got.shape != ref.shape:
+                bad("identity-mixed/shape", form, f"dims {dims}: shape {got.shape}, expected {ref.shape} (total dimension {D})")
+            elif np.abs(got - ref).max() > 1e-12:
+                bad("identity-mixed/value", form, f"dims {dims}: differs from the identity / zero generator by {np.abs(got - ref).max():.3e}")
+    except Exception as e:  # noqa
+        bad("identity-mixed/raises", "-", f"{type(e).__name__}: {e}")
+    seen, out = set(), []
+    for f in fails:
+        if f["check"] not in seen:
+            seen.add(f["check"]); out.append(f)
+    return out
+
+
 def id_sequence_items():
     return [("2qubit", n) for n in GT.get_gate_names_2qubit()] + [("3qubit", n) for n in GT.get_gate_names_3qubit()]
 
@@ -2193,6 +2247,11 @@ def oracle(ctx, volume=1):
         ctx.case(("idseq", system, name), nontrivial=True, sample={"catalogue": "gate", "system": system, "name": name, "check": "all id permutations forward+reversed in one process"})
         for f in check_id_sequence(system, name):
             ctx.violate(f"C17/gate/{system}/{f['check']}", f"{name} [{f['form']}]: {f['msg']}", {"kind": "idseq", "system": system, "name": name})
+    for dims in MIXED_DIMS:
+        ctx.count("gate identity/mixed dims" if len(set(dims)) > 1 else "gate identity/equal dims")
+        ctx.case(("identity-mixed", tuple(dims)), nontrivial=len(set(dims)) > 1, sample={"catalogue": "gate", "name": "identity", "dims": dims})
+        for f in check_identity_mixed(dims):
+            ctx.violate(f"C17/gate/{f['check']}", f"identity dims={dims} [{f['form']}]: {f['msg']}", {"kind": "identity-mixed", "dims": dims})
     for f in check_tester():
         ctx.violate(f"C17/tester/{f['form']}/{f['check']}", f"{f['msg']}", {"kind": "tester", "form": f["form"], "check": f["check"]})
     ctx.case(("tester",))
@@ -2475,6 +2534,11 @@ def replay(ctx, data):
                 print("reference: must raise;", "implementation:", got or "raised")
                 bad += got is not None
         return 1 if bad else 0
+    if kind == "identity-mixed":
+        fails = check_identity_mixed(r["dims"])
+        for f in fails:
+            print("  ", f["check"], f["form"], f["msg"])
+        return 1 if fails else 0
     if kind == "idseq":
         fails = check_id_sequence(r["system"], r["name"])
         for f in fails:
